@@ -704,7 +704,7 @@ Section ValueInd.
   Hypothesis HBool : forall b, P (VBool b).
   Hypothesis HInt : forall z, P (VInt z).
   Hypothesis HFloat : forall sci bits, P (VFloat sci bits).
-  Hypothesis HStr : forall s, P (VStr s).
+  Hypothesis HStr : forall raw s, P (VStr raw s).
   Hypothesis HArr : forall l, Forall P l -> P (VArr l).
   Hypothesis HHash : forall tn fs, Forall (fun kv => P (snd kv)) fs -> P (VHash tn fs).
 
@@ -714,7 +714,7 @@ Section ValueInd.
     | VBool b => HBool b
     | VInt z => HInt z
     | VFloat sci bits => HFloat sci bits
-    | VStr s => HStr s
+    | VStr raw s => HStr raw s
     | VArr l =>
         HArr l ((fix go (l : list value) : Forall P l :=
                    match l with
@@ -848,7 +848,7 @@ Proof. intros X t H n rest _ Hn. apply H. exact Hn. Qed.
 
 Lemma parses_all : forall fmt v, parses fmt v.
 Proof.
-  intros fmt. induction v as [| b | z | sci bits | s | l IH | tn fs IH] using value_ind';
+  intros fmt. induction v as [| b | z | sci bits | raw s | l IH | tn fs IH] using value_ind';
     unfold parses; intros Hwf.
   - split; [apply first_ok_lit; [reflexivity|discriminate|discriminate]|exact reads_null].
   - destruct b.
@@ -869,9 +869,9 @@ Proof.
     + cbn [negb orb] in Hwf.
       split; [apply first_ok_number; exact Hwf|apply reads_number; exact Hwf].
     + split; [apply first_ok_lit; [reflexivity|discriminate|discriminate]|exact reads_null].
-  - change (wf fmt (VStr s)) with (str_ok s) in Hwf.
-    change (to_json fmt (VStr s)) with (json_quote s).
-    change (tree_of fmt (VStr s)) with (JStr (fix_str s)).
+  - change (wf fmt (VStr raw s)) with (str_ok s) in Hwf.
+    change (to_json fmt (VStr raw s)) with (json_quote s).
+    change (tree_of fmt (VStr raw s)) with (JStr (fix_str s)).
     split; [apply first_ok_string|apply reads_string; exact Hwf].
   - change (wf fmt (VArr l)) with (forallb (wf fmt) l) in Hwf.
     rewrite forallb_forall in Hwf.
